@@ -243,6 +243,9 @@ class ResolveSelectionSet(Contract):
     def apply_at_call(self, I, fn, args, kwargs):
         """recursive call: the pre-state must satisfy the precondition (root type is a schema type); result and effects are
         the uninterpreted nested results"""
+        if getattr(I.p, "in_comprehension", False):
+            from pyvc.interp import Unsupported
+            raise Unsupported("a call that changes the bookkeeping state inside a comprehension (the comprehension rule covers pure element expressions)")
         names = self.call_names(fn, args, kwargs, I)
         s = names["self"]
         ss, r = V.lower(names["selection_set"]), V.lower(names["root_type"])
